@@ -7,6 +7,7 @@ import (
 	"sort"
 	"strings"
 	"time"
+	"verifharness/ev"
 )
 
 // Goroutine is one parsed goroutine of a full stack dump.
@@ -257,4 +258,22 @@ func ProvenBlockIgnoringPollers(needle string, gap time.Duration, pkgs ...string
 		return false, "no blocked goroutine on the awaited path " + needle
 	}
 	return true, strings.Join(desc, "; ")
+}
+
+func init() {
+	// (see ev.HangClassifier) proven only if some goroutine of the code under test waits for
+	// a lock or sits inside package rib: goroutines leaked by ended RPCs are blocked for good
+	// by design and prove nothing.
+	ev.HangClassifier = func() (bool, string, string) {
+		time.Sleep(500 * time.Millisecond)
+		ok, desc := ProvenBlock("gribigo/", time.Second)
+		if !ok {
+			return false, "", desc
+		}
+		sig := BlockSignature(desc)
+		if sig == "no-lock-waiter" {
+			return false, "", "every goroutine of the code under test is idle: " + desc
+		}
+		return true, sig, desc
+	}
 }
